@@ -685,7 +685,8 @@ func (li LineItem) webVTTBytes(previous, next *LineItem) (c []byte) {
 	}
 	if li.InlineStyle != nil {
 		for idx, tag := range li.InlineStyle.WebVTTTags {
-			if previous != nil && previous.InlineStyle != nil && len(previous.InlineStyle.WebVTTTags) > idx && tag.Name == previous.InlineStyle.WebVTTTags[idx].Name {
+			// The tag is still open only if all the tags up to this one are the same in the previous item
+			if idx < webVTTCommonTagsCount(&li, previous) {
 				continue
 			}
 			c = append(c, []byte(tag.startTag())...)
@@ -695,7 +696,8 @@ func (li LineItem) webVTTBytes(previous, next *LineItem) (c []byte) {
 	if li.InlineStyle != nil {
 		for i := len(li.InlineStyle.WebVTTTags) - 1; i >= 0; i-- {
 			tag := li.InlineStyle.WebVTTTags[i]
-			if next != nil && next.InlineStyle != nil && len(next.InlineStyle.WebVTTTags) > i && tag.Name == next.InlineStyle.WebVTTTags[i].Name {
+			// The tag stays open only if all the tags up to this one are the same in the next item
+			if i < webVTTCommonTagsCount(&li, next) {
 				continue
 			}
 			c = append(c, []byte(tag.endTag())...)
@@ -703,6 +705,22 @@ func (li LineItem) webVTTBytes(previous, next *LineItem) (c []byte) {
 	}
 	if color != "" {
 		c = append(c, []byte("</c>")...)
+	}
+	return
+}
+
+// webVTTCommonTagsCount returns the number of leading tags, identical in name, classes and annotation, that
+// 2 line items share
+func webVTTCommonTagsCount(a, b *LineItem) (n int) {
+	if a == nil || b == nil || a.InlineStyle == nil || b.InlineStyle == nil {
+		return
+	}
+	for n < len(a.InlineStyle.WebVTTTags) && n < len(b.InlineStyle.WebVTTTags) {
+		ta, tb := a.InlineStyle.WebVTTTags[n], b.InlineStyle.WebVTTTags[n]
+		if ta.Name != tb.Name || ta.Annotation != tb.Annotation || strings.Join(ta.Classes, ".") != strings.Join(tb.Classes, ".") {
+			return
+		}
+		n++
 	}
 	return
 }
